@@ -127,6 +127,8 @@ type bWorld struct {
 	writer     *batch.Writer
 	handler    *dochandler.DocumentHandler
 	update     *restdoc.UpdateHandler
+	// intakeProtoDown: the REST layer's protocol client fails its next Current call
+	intakeProtoDown bool
 	router     *mux.Router
 	obs        *observer.Observer
 	sub        *simenv.Subscription
@@ -231,7 +233,9 @@ func runWorldB(rc *RunCtx, prop string) *RunResult {
 		pick("anchor.err", 0, 0, 80, 200)
 		pick("req.dup", 0, 0, 100)
 		pick("deliver.reorder", 0, 0, 150)
+		pick("proto.err", 0, 0, 60)
 	case "C15":
+		pick("proto.err", 0, 60)
 		pick("cas.werr", 0, 100)
 		pick("anchor.err", 0, 100)
 		pick("store.perr", 0, 100, 250)
@@ -498,7 +502,18 @@ func runWorldB(rc *RunCtx, prop string) *RunResult {
 	}
 
 	w.handler = dochandler.New(bNS, aliases, w.proto, w.writer, w.proc, &mocks.MetricsProvider{}, hopts...)
-	w.update = restdoc.NewUpdateHandler(w.handler, w.proto, &mocks.MetricsProvider{})
+	// the REST layer has its own protocol client (same versions, same clock), which may be unavailable for one request
+	protoIntake := simenv.NewProtoClient(k, w.ledgerNow, w.versions...)
+	protoIntake.FailCurrent = func() error {
+		if w.intakeProtoDown {
+			w.intakeProtoDown = false
+
+			return errors.New("injected: protocol client unavailable")
+		}
+
+		return nil
+	}
+	w.update = restdoc.NewUpdateHandler(w.handler, protoIntake, &mocks.MetricsProvider{})
 	resolve := restdoc.NewResolveHandler(w.handler, &mocks.MetricsProvider{})
 	w.router = mux.NewRouter()
 	w.router.HandleFunc("/identifiers/{id}", resolve.Resolve)
@@ -735,7 +750,25 @@ func (w *bWorld) genOpaque() (string, []workload.PatchDesc) {
 
 	w.k.Count("probe:opaque-document-request")
 
-	return workload.OpaqueDoc(keys, svcs, uris, note, w.nextMark())
+	doc, pd := workload.OpaqueDoc(keys, svcs, uris, note, w.nextMark())
+
+	// a document may spell out that it has no services (or no keys) with an empty list: nothing is added for it
+	if k.Draw(5, "opaque.emptylist") == 0 {
+		switch {
+		case len(svcs) == 0:
+			doc = `{"service":[],` + doc[1:]
+		case len(keys) == 0:
+			doc = `{"publicKey":[],` + doc[1:]
+		}
+	}
+
+	return doc, pd
+}
+
+// hasEmptyList: the opaque document spells out an empty key or service list (the builder may refuse such a document; a
+// request it does build from it must be accepted and mean the same as without the empty member).
+func hasEmptyList(opaque string) bool {
+	return strings.Contains(opaque, `"service":[]`) || strings.Contains(opaque, `"publicKey":[]`)
 }
 
 // ---------------------------------------------------------------- clients
@@ -764,7 +797,15 @@ func (w *bWorld) post(req []byte) (int, []byte) {
 	rr := httptest.NewRecorder()
 	hr := httptest.NewRequest(http.MethodPost, "/operations", &chunkReader{b: req, n: []int{1 << 20, 4096, 512, 7, 1}[w.k.Draw(5, "post.chunk")]})
 	hr.ContentLength = int64(len(req))
+
+	down := w.fault("proto.err")
+	w.intakeProtoDown = down
 	w.update.Update(rr, hr)
+	w.intakeProtoDown = false
+
+	if down && rr.Code < 500 {
+		w.fail(w.prop, "intake/answered-without-protocol", fmt.Sprintf("the REST update handler answered %d although its protocol client was unavailable", rr.Code))
+	}
 
 	return rr.Code, rr.Body.Bytes()
 }
@@ -925,6 +966,12 @@ func (w *bWorld) clientStep(d *bDID) {
 		req, err := workload.Build(&workload.OpSpec{Type: operation.TypeCreate, Hash: hash, NextUpdate: d.Upd, NextRecovery: d.Rec, Patches: patches, OpaqueDocument: opaque, AnchorOrigin: origin,
 			SuffixType: suffixType})
 		if err != nil {
+			if hasEmptyList(opaque) {
+				k.Count("probe:builder-refused-empty-list")
+
+				return
+			}
+
 			w.fail("C11", "builder/valid-input-refused", "the client request builder refused valid input: "+err.Error())
 
 			return
@@ -1070,6 +1117,12 @@ func (w *bWorld) clientStep(d *bDID) {
 			k.Count("probe:builder-refused-inexact-window")
 
 			return // a window that cannot be written exactly as a JSON number may be refused
+		}
+
+		if hasEmptyList(spec.OpaqueDocument) {
+			k.Count("probe:builder-refused-empty-list")
+
+			return
 		}
 
 		w.fail("C11", "builder/valid-input-refused", "the client request builder refused valid input: "+err.Error())
